@@ -21,11 +21,12 @@ class Projector:
     def num(self, x, scale, field):
         try:
             v = x * scale
-            iv = int(v)
+            iv = int(round(v))
         except Exception:
             self.inexact.append(field)
             return -99999
-        if iv != v or abs(iv) > 10**8:
+        # exact up to floating-point noise far below the library's own 1e-10 tolerance
+        if abs(iv - v) > 1e-7 or abs(iv) > 10**8:
             self.inexact.append(field)
             if abs(iv) > 10**8:
                 return -99999
